@@ -1,4 +1,4 @@
-From InfOCF Require Import Core Tol SysZ SysW Lex Kz Form Model Spec Diag Mcs Cnf CInf CModel Ocf Parse Lexer.
+From InfOCF Require Import Core Tol SysZ SysW Lex Kz Form Model Spec Diag Mcs Cnf CInf CModel Ocf Parse Lexer Crev.
 (* Entry points evaluated by the correspondence check (extracted to OCaml, or by vm_compute). *)
 Definition is_none {A} (o:option A) : bool := match o with None => true | Some _ => false end.
 
@@ -60,3 +60,15 @@ Definition run_parse_formula := parse_formula_str.
 Definition run_parse_file := parse_file.
 Definition run_parse_queries := parse_queries_str.
 Definition run_cond_text := cond_text.
+
+(* C19 *)
+Definition gam_of (l:list (nat * nat)) : gam := fun k => match find (fun p => fst p =? k) l with Some p => snd p | None => 0 end.
+Definition run_crev (cs:list cond) (pr:prior) (ops:list cmop) (gps gms:list (list (nat*nat) * list (nat*nat))) :=
+  (compile_alt cs pr, compile_fast cs pr,
+   (let m := fold_left (cm_step pr) ops (cm_empty pr) in (map ckey (reg m), cm_compile pr m, compile_alt (reg m) pr)),
+   map (fun g => (csp_holds (gam_of (fst g)) (gam_of (snd g)) (compile_alt cs pr), map (accepts_star cs pr (gam_of (fst g)) (gam_of (snd g))) cs)) gps).
+
+(* C17 *)
+Definition run_crep (n:nat) (D qs:list cond) (etas:list (list nat)) (front:list (list nat)) (bound:nat) :=
+  (map (fun eta => (crep_b n D eta, pareto_check n D eta, ranks_of n D eta, map (qacc_b n D eta) qs)) etas,
+   map (pareto_check n D) front, front_missing n D bound front).
